@@ -1013,7 +1013,11 @@ func av1SeedInput(r *Rand, mtu int) []byte {
 	case 2:
 		return r.Bytes(r.Size(200, mtu, 2*mtu))
 	case 3, 4:
-		b := av1Serialise(av1RandObus(r, mtu+2, 5, 3*mtu+40, true))
+		obus := av1RandObus(r, mtu+2, 5, 3*mtu+40, true)
+		if r.Chance(1, 3) {
+			av1PadWidths(r, obus, false) // obu_size fields wider than necessary (AV1 spec 4.10.5)
+		}
+		b := av1Serialise(obus)
 		if r.Chance(1, 3) && len(b) > 0 {
 			b = b[:r.Intn(len(b)+1)]
 		}
@@ -1119,6 +1123,9 @@ func genAV1C08(x *Ctx) {
 					obus = append(obus, av1Obu{typ: 6, hasSize: true, payload: c.R.Bytes(L - 1)})
 					if c.R.Bool() {
 						obus = append(obus, av1Obu{typ: 6, hasSize: c.R.Bool(), payload: c.R.Bytes(c.R.Range(0, 3))})
+					}
+					if c.R.Chance(1, 3) {
+						av1PadWidths(c.R, obus, false)
 					}
 					c.Tag("kth-element-meets-leb-boundary")
 					run(c, []PayCall{{uint16(1 + 3*k + f), av1Serialise(obus)}})
